@@ -130,7 +130,9 @@ pub fn real_bind_text(vars: &[(String, String)], text: &str) -> String {
     }
 }
 
-const NAMES: [&str; 6] = ["x", "y", "long_name", "a.b", "é", "n1"];
+// (`PATH` / `HOME` exist in the process environment: an undefined script variable of that name is
+// still "nothing"; `a$b` / `rate%` are legal names — only spaces, `=` and `}` end or break a name)
+const NAMES: [&str; 10] = ["x", "y", "long_name", "a.b", "é", "n1", "PATH", "HOME", "a$b", "rate%"];
 
 fn lit(rng: &mut Rng) -> String {
     let n = 1 + rng.below(5);
